@@ -3,6 +3,8 @@
   Property theorems only; helper lemmas are in Lemmas/Pipeline.lean.
 -/
 import RbModel.Lemmas.Pipeline
+import RbModel.Lemmas.Trak
+import RbModel.Gen.TrakOrder
 
 namespace RbModel.Pipeline
 open RbModel.Gen.Pipeline
@@ -150,6 +152,36 @@ theorem C13_clusters_from_input (u : Ucd) (f : Font) (c : Cfg) (text : List (Nat
   obtain ⟨_, h | h⟩ := shape_ok_cases h
   · subst h; simp
   · subst h; exact shapeCore_cl u f c text
+
+/-- C13_tracking_skips_hidden_di (fonts with an AAT `trak` table and a point size).  AAT tracking adds the tracking amount to
+    the advance, and half of it to the offset, of the first slot of every grapheme whose mask has the `trak` bit — a default
+    ignorable that starts a grapheme of its own (ZWNJ, SHY, LRM, WJ, ALM, BOM, …) is such a slot.  The order of the steps of
+    `position_complex` decides whether that survives: the current tree (`Gen.TrakOrder.trackingAfterZeroing`, probed from the
+    compiled crate on every run; `Trak.positionComplex` follows whichever order the tree has and is tied to the crate by the
+    `trak-position-complex` correspondence) applies tracking inside `position_by_plan`, BEFORE `zero_width_default_ignorables`,
+    and then for every buffer, every tracking amount, direction, cluster level and mask assignment every default ignorable
+    comes out of `position_complex` with zero advance and zero offset (unless PRESERVE / REMOVE: then nothing is zeroed /
+    the glyph is deleted later). -/
+theorem C13_tracking_skips_hidden_di :
+    RbModel.Gen.TrakOrder.trackingAfterZeroing = false ∧
+    ∀ (c : Cfg) (s : Scratch) (bdir : Dir) (t : Int) (l : List RbModel.Trak.S),
+      s.hasDI = true → hasFlag c.flags BF_PRESERVE = false → hasFlag c.flags BF_REMOVE = false →
+      ∀ g ∈ RbModel.Trak.positionComplex RbModel.Gen.TrakOrder.trackingAfterZeroing c s bdir t l,
+        g.isDI = true → g.xa = 0 ∧ g.ya = 0 ∧ g.xo = 0 ∧ g.yo = 0 := by
+  have hk : RbModel.Gen.TrakOrder.trackingAfterZeroing = false := by decide
+  refine ⟨hk, ?_⟩
+  intro c s bdir t l hDI hP hR g hg
+  rw [hk] at hg
+  simp only [RbModel.Trak.positionComplex, Bool.false_eq_true, if_false] at hg
+  exact RbModel.Trak.hiddenZero_after_zeroing c s _ _ hDI hP hR g hg
+
+/-- the order matters (this is what the theorem above excludes): with tracking applied after the zeroing a hidden ZWNJ-like slot
+    (Format, IGNORABLE, not a continuation, trak bit on) keeps advance 30 and offset 15; with the tree's order it has 0 / 0. -/
+example :
+    (RbModel.Trak.positionComplex true ⟨.ltr, none, 0, 0, 0⟩ { hasDI := true } .ltr 30
+        [({ xa := 1000, props := { gc := 1, ign := true } }, true)]).map (fun g => (g.xa, g.xo)) = [(30, 15)] ∧
+    (RbModel.Trak.positionComplex false ⟨.ltr, none, 0, 0, 0⟩ { hasDI := true } .ltr 30
+        [({ xa := 1000, props := { gc := 1, ign := true } }, true)]).map (fun g => (g.xa, g.xo)) = [(0, 0)] := by decide
 
 /-- C13_preserve: with PRESERVE_DEFAULT_IGNORABLES the two default-ignorable steps do nothing
     (for every buffer, flag state and font) ... -/
